@@ -1,9 +1,13 @@
 package dns
 
 import (
+	"context"
 	"net/netip"
 	"time"
 
+	"github.com/database64128/shadowsocks-go/conn"
+	"github.com/database64128/shadowsocks-go/netio"
+	"go.uber.org/zap"
 	"golang.org/x/net/dns/dnsmessage"
 )
 
@@ -170,5 +174,100 @@ func vfC17_Rejects() {
 	vfAssert(err != nil, "foreign transaction IDs, non-responses, RA=0 and unknown rcodes are errors")
 	vfAssert(!r.v4done && !r.v6done, "a rejected message completes nothing")
 	vfAssert(len(r.a) == 0 && len(r.aaaa) == 0, "a rejected message contributes no addresses")
+	vfReach("end")
+}
+
+// vfDNSDialer is the resolver's TCP client: every connection gets a scripted response stream.
+type vfDNSDialer struct {
+	sent    [][]byte // query bytes sent with each connection
+	scripts [][]byte // response bytes served on each connection
+}
+
+func (d *vfDNSDialer) NewStreamDialer() (netio.StreamDialer, netio.StreamDialerInfo) {
+	return d, netio.StreamDialerInfo{Name: "dns", NativeInitialPayload: true}
+}
+
+func (d *vfDNSDialer) DialStream(ctx context.Context, addr conn.Addr, payload []byte) (netio.Conn, error) {
+	k := len(d.sent)
+	d.sent = append(d.sent, append([]byte{}, payload...))
+	c := &vfConn{}
+	if k < len(d.scripts) {
+		c.data = d.scripts[k]
+	}
+	return c, nil
+}
+
+func vfFramed(m *vfMsgSpec) []byte {
+	msg := vfBuild(m)
+	return append([]byte{byte(len(msg) >> 8), byte(len(msg))}, msg...)
+}
+
+// vfQueryIDs lists the transaction IDs of the length-prefixed queries in b.
+func vfQueryIDs(b []byte) (ids []uint16) {
+	for len(b) >= 4 {
+		n := int(b[0])<<8 | int(b[1])
+		ids = append(ids, uint16(b[2])<<8|uint16(b[3]))
+		if 2+n > len(b) {
+			break
+		}
+		b = b[2+n:]
+	}
+	return
+}
+
+// vfC17_TCP: a whole Lookup over TCP against scripted upstream behaviours.
+//   script 0: both answers on the first connection
+//   script 1: first connection answers only A then closes; the retry must ask only AAAA
+//   script 2: first connection answers only AAAA then closes; the retry must ask only A
+//   script 3: first connection closes in the middle of a message: failure, nothing poisoned
+//   script 4: nothing is answered on either connection: failure after at most two connections
+func vfC17_TCP() {
+	script := vfCase("script")
+	vfClock(1000000000, 0)
+	a := &vfMsgSpec{id: 4, response: true, ra: true, answers: []vfAns{vfSymAns(0)}}
+	aaaa := &vfMsgSpec{id: 6, response: true, ra: true, answers: []vfAns{vfSymAns(1)}}
+	d := &vfDNSDialer{}
+	switch script {
+	case 0:
+		d.scripts = [][]byte{append(vfFramed(a), vfFramed(aaaa)...)}
+	case 1:
+		d.scripts = [][]byte{vfFramed(a), vfFramed(aaaa)}
+	case 2:
+		d.scripts = [][]byte{vfFramed(aaaa), vfFramed(a)}
+	case 3:
+		f := vfFramed(a)
+		cut := vfInt("cut")
+		vfAssume(cut >= 1 && cut < len(f))
+		d.scripts = [][]byte{f[:cut], vfFramed(aaaa)}
+	default:
+		d.scripts = [][]byte{nil, nil}
+	}
+	r := NewResolver("r", 4, netip.AddrPortFrom(netip.AddrFrom4([4]byte{9, 9, 9, 9}), 53), d, nil, zap.NewNop())
+	res, err := r.Lookup(context.Background(), "example.com")
+	vfAssert(len(d.sent) >= 1 && len(d.sent) <= 2, "at most two TCP attempts")
+	first := vfQueryIDs(d.sent[0])
+	vfAssert(len(first) == 2 && first[0] == 4 && first[1] == 6, "the first attempt asks both queries")
+	switch script {
+	case 0:
+		vfAssert(err == nil && len(d.sent) == 1, "both answered at once: no retry")
+	case 1, 2:
+		vfAssert(len(d.sent) == 2, "one query unanswered: retried once")
+		ids := vfQueryIDs(d.sent[1])
+		want := uint16(6)
+		if script == 2 {
+			want = 4
+		}
+		vfAssert(len(ids) == 1 && ids[0] == want, "the retry asks only the unanswered query")
+		vfAssert(err == nil, "both answers obtained: the lookup succeeds")
+	case 3:
+		vfAssert(err != nil, "a connection closed in the middle of a message makes the lookup fail")
+		vfAssert(len(d.sent) == 1, "no retry after a broken message")
+	default:
+		vfAssert(err != nil && len(d.sent) == 2, "silence on both attempts: failure")
+	}
+	if err == nil {
+		vfAssert(len(res.a) == 1 && res.a[0] == netip.AddrFrom4(a.answers[0].a4), "A address is the upstream's")
+		vfAssert(len(res.aaaa) == 1 && res.aaaa[0] == netip.AddrFrom16(aaaa.answers[0].a16), "AAAA address is the upstream's")
+	}
 	vfReach("end")
 }
